@@ -249,6 +249,14 @@ func c19Run(c *Ctx, cs c19Case, count bool) {
 		cd := stackage.Cond("kw", stackage.Eq, target)
 		recv = stackage.And().Push("p0", cd)
 		parentWant = contents(recv)
+	case "in-stack-parent-options": // options of the parent that have no say in what Defrag does below it
+		recv = stackage.And().Push("p0", target, "p1")
+		decorate(recv).SetNoNesting(true).SetNegativeIndices(true).SetMutex()
+		parentWant = []any{"p0", target, "p1"}
+	case "in-cond-nonesting-parent": // a no-nesting parent still takes Conditions, whose expression may be a Stack
+		cd := stackage.Cond("kw", stackage.Eq, target)
+		recv = stackage.Or().SetNoNesting(true).Push("p0", cd)
+		parentWant = contents(recv)
 	case "in-cond-alias":
 		cd := CondAlias(stackage.Cond("kw", stackage.Eq, StackAlias(target)))
 		recv = stackage.And().Push(stackage.List().Push("z"), cd, sibling)
@@ -374,7 +382,7 @@ func c19Cases(c *Ctx) []c19Case {
 					}
 				}
 				if n <= nestLen && (lim == 0 || lim == 3) {
-					for _, pl := range []string{"top-mutex", "top-decorated", "in-stack", "alias", "ptr-alias", "in-cond", "in-cond-only", "in-cond-alias", "deep"} {
+					for _, pl := range []string{"top-mutex", "top-decorated", "in-stack", "alias", "ptr-alias", "in-cond", "in-cond-only", "in-cond-alias", "deep", "in-stack-parent-options", "in-cond-nonesting-parent"} {
 						out = append(out, c19Case{n, mask, lim, false, false, pl, "AND", false, ""})
 						if mask != (1<<n)-1 && n <= 4 && lim == 0 {
 							out = append(out, c19Case{n, mask, lim, false, false, pl, "AND", true, ""})
@@ -399,7 +407,7 @@ func c19Cases(c *Ctx) []c19Case {
 			if lim == 0 && run >= 50 {
 				continue // the default limit is 50: the property does not speak about longer runs
 			}
-			for _, pl := range []string{"top", "top-mutex", "in-stack", "alias", "ptr-alias", "in-cond", "in-cond-only", "in-cond-alias", "deep"} {
+			for _, pl := range []string{"top", "top-mutex", "in-stack", "alias", "ptr-alias", "in-cond", "in-cond-only", "in-cond-alias", "deep", "in-stack-parent-options", "in-cond-nonesting-parent"} {
 				kind := "AND"
 				if pl == "top" {
 					kind = "LIST"
